@@ -48,6 +48,7 @@ fn ev_label(e: &Ev) -> String {
         Ev::Break => "break".into(),
         Ev::Input(s) => format!("input:{}", truncate(s, 20)),
         Ev::Replace => "replace".into(),
+        Ev::StopEvaluating => "stop_evaluating".into(),
         Ev::Randomize(s) => format!("randomize:{}", s),
     }
 }
